@@ -32,6 +32,29 @@ func GenPath(r *rand.Rand, root reflect.Value, maxDepth int) Path {
 			break
 		}
 		var s Step
+		// named non-struct types carrying methods (pointer-receiver ones need an addressable value or a pointer)
+		if tn := base.Type().Name(); (tn == "Counter" || tn == "TagList" || tn == "Dict") && r.Intn(2) == 0 {
+			ptrOK := v.Kind() == reflect.Ptr || base.CanAddr()
+			switch tn {
+			case "Counter":
+				s = Step{Kind: SCall, Name: "Plus", Args: []interface{}{r.Intn(5)}}
+				if ptrOK && r.Intn(2) == 0 {
+					s = Step{Kind: SCall, Name: "Double"}
+				}
+			case "TagList":
+				s = Step{Kind: SCall, Name: "First"}
+				if ptrOK && r.Intn(2) == 0 {
+					s = Step{Kind: SCall, Name: "Count"}
+				}
+			case "Dict":
+				s = Step{Kind: SCall, Name: "Has", Args: []interface{}{[]string{"dk", "zz"}[r.Intn(2)]}}
+				if ptrOK && r.Intn(2) == 0 {
+					s = Step{Kind: SCall, Name: "Size"}
+				}
+			}
+			p.Steps = append(p.Steps, s)
+			return p
+		}
 		switch base.Kind() {
 		case reflect.Struct:
 			names := exportedFieldNames(base.Type())
